@@ -3,7 +3,7 @@
    document the crashes fixed by repository commits a8b628a..98eb553: they are statements about the explicitly named
    pre-fix definitions of Model_Checkers_Prefix.v, and C01_fixed_witnesses_ok evaluates the current definitions on the
    same witnesses. *)
-From GC Require Import Base GoAst Model_Checkers Model_Checkers_Prefix Model_Checkers2 Proofs_Checkers Proofs_Checkers2 Proofs_Witnesses.
+From GC Require Import Base GoAst Model_Checkers Model_Checkers_Prefix Model_Checkers2 Model_Walkers Proofs_Checkers Proofs_Checkers2 Proofs_Walkers Proofs_Witnesses.
 
 Theorem C01_appendCombine_total : forall f, wf f = true -> forall s, run_appendCombine f <> Panic s.
 Proof. exact (fun f _ => appendCombine_total f). Qed.
@@ -204,3 +204,40 @@ Print Assumptions C01_builtinShadow_total.
 Theorem C01_localDefWalker_total : forall visit f, wf f = true -> forall s, run_localdef visit f <> Panic s.
 Proof. exact (run_localdef_total). Qed.
 Print Assumptions C01_localDefWalker_total.
+
+(* ---------- the astwalk walkers themselves (Model_Walkers.v): for EVERY visitor (any SkipChilds behaviour) ---------- *)
+
+Theorem C01_exprWalker_total : forall enter skip f s, walk_expr enter skip f <> P s.
+Proof. exact (fun enter skip f s => @R_total (list node) _ s). Qed.
+Print Assumptions C01_exprWalker_total.
+
+Theorem C01_funcDeclWalker_total : forall enter f s, walk_func_decl enter f <> P s.
+Proof. exact (fun enter f s => @R_total (list node) _ s). Qed.
+Print Assumptions C01_funcDeclWalker_total.
+
+Theorem C01_localExprWalker_total : forall skip f, wf f = true -> forall s, walk_local_expr decl_entered skip f <> P s.
+Proof. exact (fun skip f W => body_walk_total is_expr skip f W). Qed.
+Print Assumptions C01_localExprWalker_total.
+
+Theorem C01_stmtWalker_total : forall skip f, wf f = true -> forall s, walk_stmt decl_entered skip f <> P s.
+Proof. exact (fun skip f W => body_walk_total is_stmt skip f W). Qed.
+Print Assumptions C01_stmtWalker_total.
+
+Theorem C01_stmtListWalker_total : forall skip f, wf f = true -> forall s, walk_stmt_list decl_entered skip f <> P s.
+Proof. exact (fun skip f W => body_walk_total is_stmt_list_node skip f W). Qed.
+Print Assumptions C01_stmtListWalker_total.
+
+Theorem C01_typeExprWalker_total : forall skip f, wf f = true -> forall s, walk_type_expr decl_entered skip f <> P s.
+Proof. exact (walk_type_expr_total). Qed.
+Print Assumptions C01_typeExprWalker_total.
+
+(* full statement (any EnterFunc): forall cls enter skip f, wf f = true -> forall s, body_walk cls enter skip f <> P s — refuted: a visitor whose
+   EnterFunc accepts a body-less function makes the statement walkers call ast.Inspect on a nil *ast.BlockStmt *)
+
+Theorem C01_bodyWalkers_any_enter_refuted : exists f, wf f = true /\ exists s, walk_stmt (fun _ => true) (fun _ => false) f = P s.
+Proof. exact (ex_intro _ bodyless_file body_walk_enter_all_refuted). Qed.
+Print Assumptions C01_bodyWalkers_any_enter_refuted.
+
+Theorem C01_bodyWalkers_total_partial : forall cls enter skip f, (forall d, In d (decls f) -> enter d = true -> exists b, fd_body d = Some b) -> forall s, body_walk cls enter skip f <> P s.
+Proof. exact (body_walk_total_enter). Qed.
+Print Assumptions C01_bodyWalkers_total_partial.
